@@ -149,7 +149,7 @@ def is_known_lz4(r):
 
 
 def frame_prelude(run, prop, broken):
-    fails = vlib.standard_prelude(run, "constants", "frame")
+    fails = vlib.standard_prelude(run, "constants,flags", "frame")
     for k in ("forbidden", "go2coq", "harness"):
         if k in fails:
             broken.append("%s: %s" % (k, str(fails[k])[-500:]))
@@ -163,6 +163,16 @@ def frame_prelude(run, prop, broken):
     run.coverage["trusted_base"].append("coq/model/{Prim,DataType,Msg*,Frame}.v: hand-written mirror of primitive/, datatype/, message/, frame/; "
                                         "faithful only as far as the correspondence run compared it with the compiled code")
     return fails, pr
+
+
+def can_eval(pr):
+    """The model/code comparison needs only the model files (definitions): when a proof file no longer checks, the models
+    are rebuilt on their own so that the search for a failing input still has the model side."""
+    if pr["ok"]:
+        return True
+    with vlib.Lock():
+        ok, _ = vlib.coq_make(FRAME_TARGETS)
+    return ok
 
 
 def verdict(run, prop, findings, broken, how):
